@@ -78,6 +78,10 @@ THEOREMS = [
     "KrroodVerif.Eql.IR.runNode_hasType",
     "KrroodVerif.Eql.IR.C01_runIR_eq_eval_hasType_partial",
     "KrroodVerif.Eql.IR.C01_runIR_eq_eval_truth_partial",
+    "KrroodVerif.Eql.IR.runNode_key",
+    "KrroodVerif.Eql.IR.C01_runIRTerm_var_operand",
+    "KrroodVerif.Eql.IR.C01_runIRTerm_lit_operand",
+    "KrroodVerif.Eql.IR.C01_runIR_eq_eval_frag_partial",
 ]
 # second tie (translator): the table of construction-time rewrites regenerated from the current source equals the one
 # `build` transcribes and is admissible — the same two obligations as C02 (harness/translate/c02_translate.py)
